@@ -674,8 +674,12 @@ func tcRunCase(id string, in tcInput) (c Case, err error) {
 	}
 	sort.Strings(tl)
 	kb, _ := json.Marshal(in)
+	list := "cases"
+	if len(coq) > 60000 {
+		list = "big" // evaluated in small shards of their own, so that they run in parallel
+	}
 	return Case{
-		ID: id, Kind: "tx", Input: in, Obs: obs, Coq: coq, CoqList: "cases",
+		ID: id, Kind: "tx", Input: in, Obs: obs, Coq: coq, CoqList: list,
 		OracleOK: len(oracle) == 0, OracleMsg: strings.Join(oracle, "; "),
 		Nontrivial: obs.Res == 0, Key: string(kb), Tags: tl,
 	}, nil
